@@ -80,6 +80,20 @@ CHECKS = {
         "technique": "contract-based deductive verification: own VC generator over the real AST (early-exit rule over symbolic dicts/sets) + z3 quantified set theory; native fault injection as replay",
         "design_ref": "DESIGN.md section 4 / C14",
     },
+    "C17": {
+        "level": "proof",
+        "level_text": "Adapter parameter plumbing verified per function: the six parameters stored/returned; set_params executed for every key sequence of length <= 2 over parameters, Config fields and an unknown name; flatten / inverse flatten / nearest_positive_definite for any sizes (two generic sensors); fit against the assumed scipy contract: objective restores parameters after every call, only MinimizationFailure escapes, only the noise parameters are rebound.",
+        "level_note": "D-opt (scipy minimize), D-skl (clone) assumed; finiteness of the optimiser's result is scipy's; two generic sensors by exact unrolling; native fits bounded; " + TB,
+        "technique": "contract-based deductive verification: own VC generator / interpreter over the real AST + z3; exhaustive small-scope execution for set_params",
+        "design_ref": "DESIGN.md section 4 / C17",
+    },
+    "C18": {
+        "level": "proof",
+        "level_text": "The workflow graph is extracted from the source and the real search / constructor / transition code is executed by exact unrolling for every (start, target) pair, non-id targets and every branching transition sequence of length 3 (complete enumeration), against an independent BFS and the visited-id sequence; _fit_model_impl verified for a symbolic number of samples (refusal below 3 before any estimator; grid and adapter handed to GridSearchCV unchanged).",
+        "level_note": "D-skl: GridSearchCV picks a point of the supplied grid and refits a clone with it (assumed; native 2x2 grid in the thorough tier, bounded); C17 carries the selected parameters into the exported config; " + TB,
+        "technique": "exhaustive symbolic execution of the real code on the extracted finite graph (pvc interpreter) + contract on _fit_model_impl discharged by z3",
+        "design_ref": "DESIGN.md section 4 / C18",
+    },
     "C19": {
         "level": "proof",
         "level_text": "Every state_model expression of the real strapdown_imu module (obtained by importing it = symbolic execution of straight-line sympy code) is proved equal to a hand-written rigid-body spec for all real inputs with |q|^2 != 0 (z3; ring normal form for the degree-6 position identities); declared symbol sets checked exactly.",
